@@ -171,12 +171,12 @@ def run_harness(binary, engine, lines, args=None, timeout=3600, env=None):
     return [l for l in so.split("\n") if l], se, rc
 
 
-def run_harness_resilient(binary, engine, lines, args=None, timeout=3600, crash_mark="P"):
+def run_harness_resilient(binary, engine, lines, args=None, timeout=3600, crash_mark="P", env=None):
     """like run_harness, but a harness process that dies (a panic in a goroutine the harness cannot recover) is restarted
     after the line that killed it; that line is reported with the outcome `crash_mark`.  Engines used with this flush per line."""
     out, crashes, i, stderr_tail = [], 0, 0, ""
     while i < len(lines):
-        got, se, rc = run_harness(binary, engine, lines[i:], args=args, timeout=timeout)
+        got, se, rc = run_harness(binary, engine, lines[i:], args=args, timeout=timeout, env=dict(env) if env else None)
         out += got
         i += len(got)
         if i < len(lines):
